@@ -283,17 +283,27 @@ fn main() {
                 }
             }
             lines.push(case);
+            // the replies of the plain global-layer stack: what the same directive set built another way must also answer
+            let mut reference: Option<Vec<Value>> = None;
             for (n, d, r) in runs {
                 let replies = run_script(&d, &r, &script);
+                if n == "E-global" {
+                    reference = Some(replies.clone());
+                }
                 lines.push(json!({"ev": "start", "i": i, "cfg": n, "kind": if n.starts_with('T') { "targets" } else { "env" }, "dirs": c["dirs"], "tv": c["tv"],
                     "hint": if n == "E-pair" { e_hint } else { 9 },
                     "wrap": if n == "E-or1" || n == "E-or2" { "or" } else if n == "E-and" { "and" } else { "" }, "x": c["x"].as_u64().unwrap_or(3)}));
-                for (op, reply) in script.iter().zip(replies) {
+                for (k, (op, reply)) in script.iter().zip(replies).enumerate() {
                     let mut o = op.clone();
                     o["ev"] = json!("op");
                     o["i"] = json!(i);
                     o["cfg"] = json!(n);
                     o["reply"] = reply;
+                    if n == "E-added" {
+                        if let Some(rf) = &reference {
+                            o["same_as_parsed"] = json!(rf[k] == o["reply"]);
+                        }
+                    }
                     lines.push(o);
                 }
             }
